@@ -136,3 +136,14 @@ def as_key_arg(kind: str, raw: bytes, how: str):
 
 
 PREFIXES = ['', '', '', 'push d1 pop0', 'true not pop0', '# a comment # push x00 pop0']
+
+
+# An unlocking script is code, not only pushes.  These prefixes leave the stack as
+# it is; whatever else they do (an unused definition, an unrelated cache variable, a
+# swallowed error that leaves b'E' in the cache, a flag removed from the witness tape;
+# OP_SET_FLAG is not among them: on this VM it raises for every standard flag, whose
+# names are not byte strings)
+# must not change the verdict of the lock that runs afterwards.
+DECORATIONS = ['', '', '', '', 'def 7 { true }', '@= zz [ x01 ]',
+               'try { false verify } except { true pop0 }', 'unset_flag d1',
+               'push x01 push x02 swap2 pop0 pop0']
